@@ -411,7 +411,7 @@ func runHistory(p *SPlan, noUp bool, o *sim.Outcome, sigParts *[]string) []obsLi
 		if res.faulted || s.closed {
 			// ---- narrow relaxation after an injected upstream fault ----
 			o.Probe("op_under_fault")
-			s.resync(pre, st, o, i, tag, wasLocked)
+			s.resync(pre, st, o, i, tag, wasLocked, res.err == nil)
 			if s.closed {
 				o.Probe("ops_after_connection_loss")
 			}
@@ -587,7 +587,7 @@ func (s *stack) resyncUp(now int64) {
 // call may have failed or not; the upstream state is taken from reality after
 // checking that nothing unexplained happened to it; in-memory certificates stay
 // expected unless the faulted call was a removal naming them.
-func (s *stack) resync(pre shimmodel.State, st SStep, o *sim.Outcome, i int, tag string, wasLocked bool) {
+func (s *stack) resync(pre shimmodel.State, st SStep, o *sim.Outcome, i int, tag string, wasLocked bool, callOK bool) {
 	now := time.Now().Unix()
 	m := &s.model
 	real := s.upstreamRoles()
@@ -616,8 +616,14 @@ func (s *stack) resync(pre shimmodel.State, st SStep, o *sim.Outcome, i int, tag
 	}
 	// in-memory part: start from the pre-state, apply what may have happened
 	mem := pre.Clone().Mem
+	purged := pre.Clone()
+	purged.Purge(now)
 	for k := range mem {
 		if st.Op == "removeall" || (st.Op == "remove" && st.Role == mem[k].Blob) {
+			mem[k].State = shimmodel.Maybe
+		}
+		if !purged.MemHas(mem[k].Blob) {
+			// the faulted call may or may not have purged it already (it is purged at the next call at the latest)
 			mem[k].State = shimmodel.Maybe
 		}
 	}
@@ -643,11 +649,14 @@ func (s *stack) resync(pre shimmodel.State, st SStep, o *sim.Outcome, i int, tag
 	}
 	// the shim's own lock flag: a refused or failed lock/unlock leaves it unchanged
 	m.Locked = pre.Locked
-	if (st.Op == "lock" || st.Op == "unlock") && s.ref.IsLocked() != pre.UpLocked {
-		// the upstream processed the request although the reply was lost: the shim cannot know; from here on
-		// the lock state of the shim is not asserted (connection is closed in these cases)
-		m.Locked = s.ref.IsLocked()
+	if callOK && st.Op == "lock" {
+		m.Locked = true
 	}
+	if callOK && st.Op == "unlock" {
+		m.Locked = false
+	}
+	// (the upstream may have processed a lock / unlock whose reply was then damaged: its state is taken from
+	// reality above, the shim's flag follows what the shim was told)
 }
 
 func (s *stack) checkListing(o *sim.Outcome, i int, tag, op string, got []string, want shimmodel.Listing, pre shimmodel.State, now int64) {
